@@ -18,7 +18,7 @@ import (
 type vfC27Case struct {
 	Kind    int // 0 subscribe, 1 unsubscribe, 2 disconnect, 3 refresh
 	Proto   ProtocolType
-	Target  int // 0 by user, 1 all users, 2 user + label filter (matching), 3 user + label filter (not matching)
+	Target  int // 0 by user, 1 all users, 2 user + label filter (matching), 3 user + label filter (not matching), 4 user AND the all-users option (documented no-op when a user id is given)
 	PrePubs int
 	// subscribe options (each used iff the corresponding Use flag is set)
 	Use           map[string]bool
@@ -58,7 +58,7 @@ func vfC27Gen(rt *rapid.T) vfC27Case {
 	c := vfC27Case{Use: map[string]bool{}}
 	c.Kind = rapid.SampledFrom([]int{0, 0, 0, 1, 2, 3}).Draw(rt, "kind")
 	c.Proto = rapid.SampledFrom([]ProtocolType{ProtocolTypeJSON, ProtocolTypeProtobuf}).Draw(rt, "proto")
-	c.Target = rapid.SampledFrom([]int{0, 0, 1, 2, 3}).Draw(rt, "target")
+	c.Target = rapid.SampledFrom([]int{0, 0, 1, 2, 3, 4}).Draw(rt, "target")
 	c.PrePubs = rapid.IntRange(0, 4).Draw(rt, "prepubs")
 	for _, o := range vfC27SubOpts {
 		c.Use[o] = rapid.IntRange(0, 2).Draw(rt, "use_"+o) == 2 // shrinks towards "option not used"
@@ -215,9 +215,16 @@ func vfC27Run(t *testing.T, cs vfC27Case, out *vfC27Out, isKnown func(string) bo
 			c.Connect(nil)
 			by[i] = c
 		}
+		// ... and a connection of ANOTHER user on each node: only fleet-wide calls may touch it
+		ov := make([]*vfConn, 2)
+		for i, w := range ws {
+			c := w.NewConn(vfConnCfg{Name: fmt.Sprintf("o%d", i), User: "v", Proto: cs.Proto, Emulation: cs.Narrow == 2})
+			c.Connect(nil)
+			ov[i] = c
+		}
 		const ch2 = "ch2"
 		if cs.Kind == 1 {
-			for _, c := range []*vfConn{conns[0], conns[1], by[0], by[1]} {
+			for _, c := range []*vfConn{conns[0], conns[1], by[0], by[1], ov[0], ov[1]} {
 				if err := c.Client.Subscribe(ch, WithEmitPresence(true), WithEmitJoinLeave(true)); err != nil {
 					return "setup subscribe: " + err.Error()
 				}
@@ -230,6 +237,7 @@ func vfC27Run(t *testing.T, cs vfC27Case, out *vfC27Out, isKnown func(string) bo
 		vfSettle()
 		from := []int{len(conns[0].Frames()), len(conns[1].Frames())}
 		byFrom := []int{len(by[0].Frames()), len(by[1].Frames())}
+		ovFrom := []int{len(ov[0].Frames()), len(ov[1].Frames())}
 		evFrom := []int{len(ws[0].Events()), len(ws[1].Events())}
 		// narrowing options for the i-th call (one call per subject connection when narrowed)
 		calls := 1
@@ -286,6 +294,8 @@ func vfC27Run(t *testing.T, cs vfC27Case, out *vfC27Out, isKnown func(string) bo
 			add("Source", WithSubscribeSource(uint8(cs.Source)))
 			add("HistoryMetaTTL", WithSubscribeHistoryMetaTTL(time.Duration(cs.MetaTTL)*time.Second))
 			switch cs.Target {
+			case 4:
+				opts = append(opts, WithSubscribeAllUsers(true))
 			case 1:
 				user = ""
 				opts = append(opts, WithSubscribeAllUsers(true))
@@ -313,6 +323,8 @@ func vfC27Run(t *testing.T, cs vfC27Case, out *vfC27Out, isKnown func(string) bo
 				nopts++
 			}
 			switch cs.Target {
+			case 4:
+				opts = append(opts, WithUnsubscribeAllUsers(true))
 			case 1:
 				user = ""
 				opts = append(opts, WithUnsubscribeAllUsers(true))
@@ -344,6 +356,8 @@ func vfC27Run(t *testing.T, cs vfC27Case, out *vfC27Out, isKnown func(string) bo
 				nopts++
 			}
 			switch cs.Target {
+			case 4:
+				opts = append(opts, WithDisconnectAllUsers(true))
 			case 1:
 				user = ""
 				opts = append(opts, WithDisconnectAllUsers(true))
@@ -379,6 +393,8 @@ func vfC27Run(t *testing.T, cs vfC27Case, out *vfC27Out, isKnown func(string) bo
 				nopts++
 			}
 			switch cs.Target {
+			case 4:
+				opts = append(opts, WithRefreshAllUsers(true))
 			case 1:
 				user = ""
 				opts = append(opts, WithRefreshAllUsers(true))
@@ -419,6 +435,10 @@ func vfC27Run(t *testing.T, cs vfC27Case, out *vfC27Out, isKnown func(string) bo
 				s = append(s, "bystander: "+l)
 			}
 			s = append(s, "bystander: "+other(by[i]))
+			for _, l := range vfC27Snapshot(ws[i], ov[i], ch, ovFrom[i], evFrom[i]) {
+				s = append(s, "other user: "+l)
+			}
+			s = append(s, "other user: "+other(ov[i]))
 			return s
 		}
 		local := snap(0)
@@ -429,6 +449,9 @@ func vfC27Run(t *testing.T, cs vfC27Case, out *vfC27Out, isKnown func(string) bo
 		out.labels = append(out.labels, []string{"subscribe", "unsubscribe", "disconnect", "refresh"}[cs.Kind])
 		if cs.Target == 3 {
 			out.labels = append(out.labels, "target_matches_nothing")
+		}
+		if cs.Target == 4 {
+			out.labels = append(out.labels, "user_id_together_with_all_users_option")
 		}
 		if strings.Join(local, "\n") == strings.Join(remote, "\n") {
 			return ""
